@@ -33,7 +33,8 @@ type Op struct {
 // Fault selects one armed interface call of the commit.
 type Fault struct {
 	Index int    `json:"index"` // -1 = none
-	Mode  string `json:"mode"`  // fail | failafter | crash
+	Mode  string `json:"mode"`  // fail | failafter | crash | crashtorn
+	Torn  int    `json:"torn,omitempty"` // crashtorn: number of handles of the batch that reach the registry
 }
 
 // TxnSpec is one transaction.
@@ -90,9 +91,13 @@ type ChildOut struct {
 	Post      *State        `json:"post"`
 	Tid       int           `json:"tid"`
 	Sets      *Sets         `json:"sets,omitempty"`
+	CanonIDs  []string      `json:"canon_ids,omitempty"` // crash runs: the child's canonical numbering, so the parent can decode the state left behind
 	Crashed   bool          `json:"crashed,omitempty"`
 	Fatal     string        `json:"fatal,omitempty"`
 }
+
+// CanonState canonicalises a decoded folder.
+func CanonState(c *sopx.Canon, raw *sopx.Raw) *State { return canonState(c, raw) }
 
 func canonState(c *sopx.Canon, raw *sopx.Raw) *State {
 	s := &State{Counts: map[string]int64{}, TLogs: len(raw.TLogs), PLogs: len(raw.PLogs), Other: raw.Other}
@@ -236,14 +241,34 @@ func childMain(args []string) int {
 			return sopx.Fail
 		case "failafter":
 			return sopx.FailAfter
-		case "crash":
+		case "crash", "crashtorn":
+			if in.Txn.Fault.Mode == "crashtorn" {
+				return sopx.Proceed // the registry decorator tears the batch and then exits
+			}
 			out.Crashed = true
 			out.Events = e.Rec.Snapshot()
+			out.CanonIDs = e.Rec.Canon.Export()
 			b, _ := json.Marshal(out)
 			os.WriteFile(partial, b, 0o644)
 			os.Exit(77)
 		}
 		return sopx.Proceed
+	}
+	if in.Txn.Fault.Mode == "crashtorn" && e.LastRegistryDec != nil {
+		e.LastRegistryDec.Torn = func(ev *sopx.Event) int {
+			if ev.Seq == in.Txn.Fault.Index {
+				return in.Txn.Fault.Torn
+			}
+			return -1
+		}
+		e.LastRegistryDec.TornThen = func(ev *sopx.Event) {
+			out.Crashed = true
+			out.Events = e.Rec.Snapshot()
+			out.CanonIDs = e.Rec.Canon.Export()
+			b, _ := json.Marshal(out)
+			os.WriteFile(partial, b, 0o644)
+			os.Exit(77)
+		}
 	}
 	e.Rec.Arm()
 	if in.Txn.End == "rollback" {
